@@ -11,7 +11,7 @@ import glob, os, random, time
 
 from .. import dwforest as DF
 from ..dwgen import build_file, TAG, AT
-from ..dwcheck import TempElf, SCRATCH
+from ..dwcheck import TempElf, TempElfSet, forest_files, SCRATCH
 from ..drv import Driver, DriverCrash, DriverTimeout
 from ..harness import Evidence, run_pool, finish
 
@@ -133,8 +133,18 @@ def model_check(f, mode, rd, ru):
     rows = rd["res"]
     if len(rows) != len(exp):
         return "%s entry yields %d DIEs, the model %d" % (mode, len(rows), len(exp))
+    # which file a DIE belongs to (the file itself or its supplementary file) is part of what it is: two DIEs at one
+    # offset of the two files are different DIEs
+    main_dw = rows[0][0]["e"][0]["dw"] if rows else None
+    in_alt = lambda die: die.unit not in f.units
     for row, (d, chain) in zip(rows, exp):
         D = row[0]["e"][0]
+        for what_, got_, want_ in (("DIE", [D], [d]), ("parent", row[2]["e"], [DF.cooked_parent(d, chain)[0]] if cooked and DF.cooked_parent(d, chain) else ([d.parent] if (not cooked and d.parent) else [])),
+                                   ("root", row[3]["e"], [DF.cooked_root(d, chain) if cooked else d.unit.root])):
+            if len(got_) == len(want_) and any((g_["dw"] != main_dw) != in_alt(w_) for g_, w_ in zip(got_, want_)):
+                return "%s DIE %#x (path %r): its %s %#x is a DIE of the %s, the model has it in the %s" % (
+                    mode, d.offset, [c.offset for c in chain], what_, got_[0]["off"], "supplementary file" if got_[0]["dw"] != main_dw else "file itself",
+                    "supplementary file" if in_alt(want_[0]) else "file itself")
         want_imp = [c.offset for c in chain]
         if D["off"] != d.offset or (cooked and D["imp"] != want_imp):
             return "%s entry: got DIE %#x path %r, model %#x path %r" % (mode, D["off"], D["imp"], d.offset, want_imp)
@@ -209,21 +219,21 @@ def work_gen(task):
         for i in range(start, start + count):
             rnd = random.Random((seed << 32) ^ (i * 2654435761 & 0xffffffff) ^ 0xC05)
             g = DF.ForestGen(rnd, DF.FCfg(max_units=rnd.choice([2, 4, 6]), max_dies=rnd.choice([15, 40]), partial=0.85,
-                                          max_depth=rnd.choice([3, 5])))
+                                          max_depth=rnd.choice([3, 5]), alt=0.15))
             f = g.forest()
-            data = build_file(f)
+            data, others = forest_files(f)
             try:
-                with TempElf(data) as path:
+                with TempElfSet(data, others) as path:
                     res = check_file(drv, ev, path, "generated", f)
             except DriverCrash as e:
-                ev.violations.append({"property": PID, "elf_hex": data.hex(), "recipe": {"seed": seed, "index": i},
+                ev.violations.append({"property": PID, "elf_hex": data.hex(), "other_files": [[n_, d_.hex()] for n_, d_ in others], "recipe": {"seed": seed, "index": i},
                                       "reason": "driver crashed: " + e.report[-3000:], "signature": "C05:crash:%d:%d" % (seed, i)})
                 continue
             except DriverTimeout:
                 ev.inconc("watchdog")
                 continue
             for l, n in g.labels.items():
-                if l in ("import-edge", "double-import", "nested-import-host"):
+                if l in ("import-edge", "double-import", "nested-import-host", "alt-import", "alt-import-nested", "alt-import-nested-same-root-offset"):
                     ev.label("gen:" + l, n)
             for mode, why, nt, ndies in res:
                 ev.case(n=max(ndies, 1))
@@ -231,7 +241,7 @@ def work_gen(task):
                     ev.nontrivial.add("%x" % hash((data, mode, k)))
                 ev.label("mode:" + mode)
                 if why:
-                    ev.violations.append({"property": PID, "elf_hex": data.hex(), "recipe": {"seed": seed, "index": i}, "mode": mode,
+                    ev.violations.append({"property": PID, "elf_hex": data.hex(), "other_files": [[n_, d_.hex()] for n_, d_ in others], "recipe": {"seed": seed, "index": i}, "mode": mode,
                                           "reason": "%s: %s" % (mode, why), "signature": "C05:gen:%s:%s" % (mode, why[:60])})
             if g.labels.get("import-edge", 0) >= 2 and rnd.random() < 0.03:
                 ev.sample({"units": [(u.offset, "partial" if u.partial else "compile") for u in f.units],
